@@ -43,7 +43,7 @@ from common import MachineryError, rng, scratch
 READY = True
 
 NM = ("x", "y", "z")
-CREATING = ("frombits", "clone", "deepcopy")
+CREATING = ("frombits", "default", "clone", "deepcopy")
 
 
 def _ncpu():
@@ -230,7 +230,7 @@ def _report(res, V, prefix=""):
             continue
         for v in vs[:3]:
             res.violation("%s%s:%s:%s" % (prefix, kind, route, v["shape"]),
-                          "bitstruct %s (built by %s): %s" % (v["shape"], "@bitstruct source" if route == "src"
+                          "bitstruct %s (built by %s): %s" % (v["shape"], "@bitstruct source" if route.endswith("src")
                                                               else "mk_bitstruct", v["what"]),
                           {"shape": v["shape"], "route": route, "detail": v["detail"],
                            "others_of_this_kind": len(vs) - 1})
@@ -303,6 +303,205 @@ def _family(res, K, exh, sdir):
             bad.append(i)
     if bad:
         raise MachineryError("corrupted expectation tables %s were accepted by the replay" % bad)
+    res.count("canaries_rejected", 4)
+
+
+# --------------------------------------------------------------------------------------
+# declaration histories (spec/BitStructDecl.tla): one class name, declared again and again
+# --------------------------------------------------------------------------------------
+
+def _decl_shapes(tier):
+    """A handful of shapes that are permutations / re-typings of each other; all are declared under ONE
+    class name (nested struct classes too), so any cache key that forgets what distinguishes two of them
+    hands out the wrong type."""
+    lf, st, ls = L.leaf, L.struct, L.lst
+    inner = st([("x", lf(1)), ("y", lf(2))])
+    shapes = [
+        st([("a", lf(2)), ("b", lf(3)), ("c", ls(2, lf(1)))]),        # base
+        st([("c", ls(2, lf(1))), ("a", lf(2)), ("b", lf(3))]),        # field order: rotation
+        st([("b", lf(3)), ("a", lf(2)), ("c", ls(2, lf(1)))]),        # field order: first two exchanged
+        st([("a", lf(3)), ("b", lf(2)), ("c", ls(2, lf(1)))]),        # same names, leaf widths exchanged
+        st([("a", lf(2)), ("b", lf(3)), ("c", ls(3, lf(1)))]),        # another list dimension
+        st([("a", lf(2)), ("n", inner)]),                             # nested type
+        st([("a", lf(2)), ("n", st([("y", lf(2)), ("x", lf(1))]))]),  # nested type with its fields permuted
+    ]
+    if tier != "quick":
+        shapes += [
+            st([("a", lf(2)), ("b", lf(3)), ("c", ls(1, ls(2, lf(1))))]),   # 1x2 list instead of 2
+            st([("n", inner), ("a", lf(2))]),                               # nested type first
+            st([("a", lf(2)), ("n", st([("x", lf(2)), ("y", lf(1))]))]),    # nested type, widths exchanged
+            st([("a", lf(2)), ("n", ls(1, inner))]),                        # list of the nested type
+        ]
+    return shapes
+
+
+def _check_decl(case, cls, light=False):
+    """Is `cls` the type the declared shape denotes?  -> list of (clause, text).  Judged by nbits, the field
+    order, construction by keyword AND by position, to_bits, from_bits and field reads through the TLC layout."""
+    shape, nbits, layout = case["shape"], case["nbits"], case["layout"]
+    out = []
+    try:
+        if cls.nbits != nbits:
+            return [("nbits", "nbits is %r, the declared leaves sum to %d" % (cls.nbits, nbits))]
+        order = list(cls.__bitstruct_fields__)
+        if order != [f["n"] for f in shape["fs"]]:
+            out.append(("field-order", "__bitstruct_fields__ lists %s, declared %s" % (order, [f["n"] for f in shape["fs"]])))
+        for val in case["vals"][:3] if light else case["vals"]:
+            b, v = val["b"], val["v"]
+            o = L.build_value(cls, shape, v)                      # keyword construction
+            got = L.bits_of(o.to_bits(), nbits, "to_bits()")
+            if got != b:
+                out.append(("to_bits", "to_bits() of value %s gives bits (LSB first) %s, specification %s" % (v, got, b)))
+                break
+            f = cls.from_bits(L.mkbits(b))
+            pv = L.project(f, shape, cls)
+            if pv != v:
+                out.append(("from_bits", "from_bits(%s) has fields %s, specification %s" % (b, pv, v)))
+                break
+            mm = _mismatch(f, cls, shape, layout, b, nbits)
+            if mm:
+                out.append(("layout", "from_bits(%s): %s" % (b, mm)))
+                break
+            if light:
+                continue
+            parts = [getattr(o, fd["n"]) for fd in shape["fs"]]   # positional construction, declared order
+            p = cls(*[copy.deepcopy(x) for x in parts])
+            got = L.bits_of(p.to_bits(), nbits, "to_bits()")
+            if got != b:
+                out.append(("positional-init", "T(*fields in declared order).to_bits() gives %s, specification %s" % (got, b)))
+                break
+    except L.Structure as ex:
+        out.append(("structure", str(ex)))
+    except Exception as ex:  # noqa: BLE001
+        out.append(("raises", "%s: %s" % (type(ex).__name__, ex)))
+    return out
+
+
+def _decl_label(cases, i, r=None):
+    return ("%s:" % r if r else "") + L.shape_str(cases[i - 1]["shape"])
+
+
+def _decl_part(args):
+    """Worker: replay declaration histories; every history under its own fresh class name."""
+    hists, cases, part = args
+    V, ndecl, nchk = [], 0, 0
+    for hi, hist in enumerate(hists):
+        name = "H%d_%d" % (part, hi)
+        made = []
+        for k, (i, r, g) in enumerate(hist):
+            ndecl += 1
+            try:
+                cls = L.declare(cases[i - 1]["shape"], name, r)
+            except Exception as ex:  # noqa: BLE001
+                V.append({"kind": "decl:raises", "route": r, "size": k, "what": "declaring raised %s: %s" % (type(ex).__name__, ex),
+                          "shape": "%s after [%s]" % (_decl_label(cases, i), ", ".join(_decl_label(cases, a, b) for a, b, _ in hist[:k])),
+                          "detail": {"history": hist[:k + 1]}})
+                break
+            made.append([i, r, g, cls, True])
+            for m, (i2, r2, g2, c2, was_ok) in enumerate(made):
+                newest = m == len(made) - 1
+                if not was_ok:
+                    continue                         # already reported at its own declaration
+                nchk += 1
+                for clause, text in _check_decl(cases[g2 - 1], c2, light=not newest):
+                    made[m][4] = False
+                    V.append({"kind": "decl:%s%s" % (clause, "" if newest else ":earlier-type-changed"), "route": r2, "size": k,
+                              "shape": "%s after [%s]" % (_decl_label(cases, i2),
+                                                          ", ".join(_decl_label(cases, a, b) for a, b, _ in hist[:m])),
+                              "what": ("the class returned for this declaration is not the declared type: %s" % text) if newest
+                              else ("after declaring %s the class returned EARLIER for this declaration changed: %s"
+                                    % (_decl_label(cases, i, r), text)),
+                              "detail": {"history": [list(h) for h in hist[:k + 1]], "declared": cases[i2 - 1]["shape"]}})
+    return {"V": V, "ndecl": ndecl, "nchk": nchk}
+
+
+def _decl_histories(res, tier, sdir):
+    shapes = _decl_shapes(tier)
+    fin = os.path.join(sdir, "decl_in.json")
+    fout = os.path.join(sdir, "decl_cases.json")
+    with open(fin, "w") as f:
+        json.dump({"shapes": shapes}, f)
+    maxlen = 3
+    cfg = ("SPECIFICATION Spec\nCONSTANTS MaxLen = %d\n Routes = {\"src\", \"mk\"}\n KeyKind = \"%s\"\n"
+           "INVARIANT HistoryIndependent\nINVARIANT AllReturnedRight\nINVARIANT KeySound\n"
+           "INVARIANT DeclaredIsHistory\nCHECK_DEADLOCK FALSE\n")
+    r, states, init, edges = tlc.dump_graph("BitStructDecl", cfg_text=cfg % (maxlen, "ordered"),
+                                            env={"VERIF_INPUT": fin, "VERIF_OUT": fout}, timeout=3000)
+    res.add_tlc(r)
+    if r.violated:
+        res.violation("model:decl:%s" % sorted(set(r.violated)), "BitStructDecl.tla violates %s" % r.violated, r.out[-3000:])
+        return
+    if not r.ok:
+        raise MachineryError("TLC failed on BitStructDecl: %s\n%s" % (r.errors, r.out[-2500:]))
+    # canary of the model: a cache key that forgets the field order must be rejected by TLC
+    rc = tlc.run("BitStructDecl", cfg_text=cfg % (2, "unordered"), env={"VERIF_INPUT": fin, "VERIF_OUT": ""},
+                 workers=2, timeout=3000)
+    res.add_tlc(rc)
+    if not ({"HistoryIndependent", "KeySound", "AllReturnedRight"} & set(rc.violated)):
+        raise MachineryError("BitStructDecl with the order-forgetting cache key was not rejected by TLC:\n%s" % rc.out[-1500:])
+    res.count("canaries_rejected", 1)
+    cases = json.load(open(fout))
+    if len(cases) != len(shapes) or [c["shape"] for c in cases] != shapes:
+        raise MachineryError("BitStructDecl wrote %d cases for %d shapes" % (len(cases), len(shapes)))
+    out = collections.defaultdict(list)
+    for (s, d, name, args_) in edges:
+        if name != "Declare":
+            raise MachineryError("unexpected action %s in the BitStructDecl graph" % name)
+        out[s].append((d, args_))
+    (s0,) = tuple(init)
+    hists = []
+
+    def walk(s, pre):
+        if not out[s]:
+            hists.append(pre)
+            return
+        for (d, a) in out[s]:
+            h = states[d]["hist"]
+            if len(h) != len(pre) + 1 or h[-1][0] != a[0] or h[-1][1] != a[1]:
+                raise MachineryError("BitStructDecl graph: edge %s does not extend the history %s" % (a, h))
+            walk(d, pre + [(h[-1][0], str(h[-1][1]), h[-1][2])])
+    walk(s0, [])
+    want = (2 * len(shapes)) ** maxlen
+    if len(hists) != want or any(len(h) != maxlen for h in hists):
+        raise MachineryError("BitStructDecl: %d maximal histories, expected %d" % (len(hists), want))
+    nparts = _ncpu()
+    ctx = multiprocessing.get_context("fork")
+    with cf.ProcessPoolExecutor(max_workers=nparts, mp_context=ctx) as pp:
+        results = list(pp.map(_decl_part, [(hists[p::nparts], cases, p) for p in range(nparts)]))
+    V = []
+    for rr in results:
+        V += rr["V"]
+    nd = sum(rr["ndecl"] for rr in results)
+    res.add_evals(sum(rr["nchk"] for rr in results))
+    res.count("spec_to_code_transitions_replayed", nd)
+    res.note("declaration_histories", {"shapes": [L.shape_str(t) for t in shapes], "max_len": maxlen,
+                                       "histories": len(hists), "declarations": nd, "states": len(states)})
+    for h in hists[:: max(1, len(hists) // 400)]:
+        res.distinct(("decl-history", tuple((a, b) for a, b, _ in h)))
+    res.sample({"kind": "spec->code declaration history", "class_name": "H<n>", "history":
+                [_decl_label(cases, a, b) for a, b, _ in hists[len(hists) // 3]]}, cap=4)
+    _report(res, V)
+    # canary: corrupted expectations must be noticed by _check_decl
+    bad = []
+    for i, mut in enumerate(("layout", "bits", "nbits", "order")):
+        c = copy.deepcopy(cases[0])
+        if mut == "layout":
+            c["layout"][0]["path"], c["layout"][1]["path"] = c["layout"][1]["path"], c["layout"][0]["path"]
+        elif mut == "bits":
+            c["vals"][3]["b"][0] ^= 1
+        elif mut == "nbits":
+            c["nbits"] += 1
+        else:
+            c["shape"]["fs"][0], c["shape"]["fs"][1] = c["shape"]["fs"][1], c["shape"]["fs"][0]
+            for v in c["vals"]:
+                v["v"][0], v["v"][1] = v["v"][1], v["v"][0]
+        if not _check_decl(c, L.declare(cases[0]["shape"], "DeclCanary", "mk")):
+            bad.append(mut)
+    if _check_decl(cases[0], L.declare(cases[0]["shape"], "DeclCanary", "mk")):
+        raise MachineryError("the uncorrupted declaration expectation is rejected: %s"
+                             % _check_decl(cases[0], L.declare(cases[0]["shape"], "DeclCanary", "mk")))
+    if bad:
+        raise MachineryError("corrupted declaration expectations %s were accepted" % bad)
     res.count("canaries_rejected", 4)
 
 
@@ -410,7 +609,8 @@ def _tiny(res, shapes, sdir):
             continue
         if not run.ok:
             raise MachineryError("TLC failed on BitStructTiny %s: %s\n%s" % (L.shape_str(s), run.errors, run.out[-2500:]))
-        for op in ("frombits", "assign", "assignbits", "nbassign", "nbassignbits", "flip", "clone", "deepcopy", "mutate"):
+        for op in ("frombits", "default", "assign", "assignbits", "nbassign", "nbassignbits", "flip", "clone", "deepcopy",
+                   "mutate"):
             if not r["ops"].get(op):
                 raise MachineryError("operation %s has no transition in the state graph of %s (vacuous)"
                                      % (op, L.shape_str(s)))
@@ -486,6 +686,61 @@ def _rand_shape(R, k):
     if m == 9 and tb < 1023:                       # pad to exactly 1023 bits
         t["fs"].append({"n": "pad_", "t": L.leaf(1023 - tb)})
     return t
+
+
+def _nodes(t, kind):
+    out = [t] if t["k"] == kind else []
+    if t["k"] == "list":
+        out += _nodes(t["t"], kind)
+    elif t["k"] == "struct":
+        for f in t["fs"]:
+            out += _nodes(f["t"], kind)
+    return out
+
+
+def _variants(R, base):
+    """Re-declarations of `base` under the SAME class name: (tag, shape) with permuted field order (top level /
+    nested), one leaf width changed, one list dimension changed, and the identical declaration again."""
+    out = []
+
+    def perm(pick):
+        t = copy.deepcopy(base)
+        cand = [x for x in _nodes(t, "struct") if len(x["fs"]) >= 2 and (x is t) == pick]
+        if not cand:
+            return None
+        x = R.choice(cand)
+        old = [f["n"] for f in x["fs"]]
+        for _ in range(20):
+            R.shuffle(x["fs"])
+            if [f["n"] for f in x["fs"]] != old:
+                return t
+        return None
+    for tag, t in (("perm-top", perm(True)), ("perm-nested", perm(False))):
+        if t is not None:
+            out.append((tag, t))
+    t = copy.deepcopy(base)
+    lv = _nodes(t, "leaf")
+    x = R.choice(lv)
+    x["w"] = x["w"] + 1 if L.total_bits(t) < 1000 and R.random() < 0.6 or x["w"] == 1 else x["w"] - 1
+    if 1 <= L.total_bits(t) <= 1023:
+        out.append(("leaf-width", t))
+    t = copy.deepcopy(base)
+    ls = _nodes(t, "list")
+    if ls:
+        x = R.choice(ls)
+        x["n"] = x["n"] + 1 if x["n"] == 1 or R.random() < 0.6 else x["n"] - 1
+        if L.total_bits(t) <= 1023:
+            out.append(("list-dim", t))
+    if len(base["fs"]) >= 2:
+        t = copy.deepcopy(base)                      # the types of two fields exchanged, names kept
+        i, j = R.sample(range(len(t["fs"])), 2)
+        t["fs"][i]["t"], t["fs"][j]["t"] = t["fs"][j]["t"], t["fs"][i]["t"]
+        if L.shape_str(t) != L.shape_str(base):
+            out.append(("types-exchanged", t))
+    R.shuffle(out)
+    out = out[:3]
+    out.insert(R.randint(1, len(out)) if out else 0, ("identical", copy.deepcopy(base)))
+    return out
 
 
 def _rand_bits(R, n):
@@ -574,8 +829,10 @@ def _history(R, cls, shape, nev):
                 cur = {"op": "clone", "d": d, "s": s}
             elif r < 0.57:
                 cur = {"op": "deepcopy", "d": d, "s": s}
-            elif r < 0.62:
+            elif r < 0.595:
                 cur = {"op": "frombits", "d": d, "b": _rand_bits(R, nb)}
+            elif r < 0.62:
+                cur = {"op": "default", "d": d}
             elif r < 0.82:
                 path, w = R.choice(paths)
                 old = L.bits_of(L.nav(real[d], path), w)
@@ -612,6 +869,47 @@ def _history(R, cls, shape, nev):
 def _short(s, n=150):
     import hashlib
     return s if len(s) <= n else s[:n] + "..#" + hashlib.sha1(s.encode()).hexdigest()[:8]
+
+
+def _gen_redecl(res, ngroups, nev):
+    """code -> spec for declaration histories: a random base shape and re-declarations of it (field order,
+    a leaf width, a list dimension, ... changed; and unchanged) are declared one after the other under ONE
+    class name through alternating routes; each returned class gets its own recorded history, validated by
+    BitStructTrace against the shape that was DECLARED."""
+    R = rng("c06-redecl")
+    traces, V = [], []
+    tags = collections.Counter()
+    for g in range(ngroups):
+        base = _rand_struct(R, R.randint(2, 14) if g % 3 else R.randint(15, 120), 1, 3)
+        seq = [("base", base)] + _variants(R, base)
+        name = "Redecl%d" % g
+        hist = []
+        for k, (tag, t) in enumerate(seq):
+            route = ("mk", "src")[(g + k) % 2]
+            label = "%s:%s" % (route, tag)
+            tags[tag] += 1
+            where = "%s after [%s]" % (_short(L.shape_str(t)), ", ".join(hist))
+            try:
+                c = L.declare(t, name, route)
+            except Exception as ex:  # noqa: BLE001
+                V.append({"kind": "redecl:class-creation:raises", "route": route, "shape": where, "size": L.n_nodes(t),
+                          "what": "declaring raised %s: %s" % (type(ex).__name__, ex), "detail": {"shape": t}})
+                hist.append(label)
+                continue
+            ev, err = _history(R, c, t, nev)
+            ev = [e for e in ev if e["op"] != "hash-failed"]
+            if err:
+                V.append({"kind": "redecl:" + err[0], "route": route, "shape": where, "size": L.n_nodes(t),
+                          "what": "%s (declared %s as `%s`, earlier declarations of that name: %s)"
+                                  % (err[1], L.shape_str(t), name, hist), "detail": {"shape": t, "history": hist}})
+            traces.append({"shape": t, "ev": ev, "route": "redecl-" + route, "where": where, "redecl": tag})
+            res.distinct(("redecl", L.shape_str(t), tuple(hist)))
+            hist.append("%s:%s" % (label, _short(L.shape_str(t), 60)))
+    res.note("redeclaration_traces", {"groups": ngroups, "declarations_by_kind": dict(sorted(tags.items()))})
+    for tag in ("perm-top", "leaf-width", "list-dim", "identical", "types-exchanged", "perm-nested"):
+        if not tags.get(tag):
+            raise MachineryError("no re-declaration of kind %s was generated" % tag)
+    return traces, V
 
 
 def _gen_traces(res, ntr, nev, sdir):
@@ -754,10 +1052,13 @@ def _canaries(good):
 
 def _traces(res, ntr, nev, sdir):
     traces, V = _gen_traces(res, ntr, nev, sdir)
+    rtr, rV = _gen_redecl(res, max(8, ntr // 12), max(10, nev // 2))
+    traces += rtr
+    V += rV
     res.add_evals(sum(len(t["ev"]) for t in traces))
     ops = collections.Counter(e["op"] for t in traces for e in t["ev"])
-    for op in ("frombits", "assign", "assignbits", "nbassign", "nbassignbits", "flip", "clone", "deepcopy", "mutate",
-               "pack", "nbits", "layout", "eq"):
+    for op in ("frombits", "default", "assign", "assignbits", "nbassign", "nbassignbits", "flip", "clone", "deepcopy",
+               "mutate", "pack", "nbits", "layout", "eq"):
         if not ops.get(op):
             raise MachineryError("no %s event in the recorded histories (vacuous)" % op)
     res.note("trace_events", dict(sorted(ops.items())))
@@ -776,7 +1077,8 @@ def _traces(res, ntr, nev, sdir):
             raise MachineryError("the harness recorded an ill-formed trace (%s at event %d): %s"
                                  % (err, pos, json.dumps(t["ev"][pos - 1])[:400]))
         e = t["ev"][pos - 1]
-        V.append({"kind": "trace:" + err, "route": t["route"], "shape": _short(L.shape_str(t["shape"])),
+        V.append({"kind": ("redecl:" if "redecl" in t else "trace:") + err, "route": t["route"],
+                  "shape": t.get("where") or _short(L.shape_str(t["shape"])),
                   "size": L.n_nodes(t["shape"]),
                   "what": "%s at event %d %s" % (err, pos, json.dumps({k: v for k, v in e.items() if k != "post"})[:300]),
                   "detail": {"shape": t["shape"], "events": t["ev"][:pos]}})
@@ -801,8 +1103,9 @@ def _traces(res, ntr, nev, sdir):
 
 def run(res, tier):
     quick = tier == "quick"
-    K, exh = (6, 8) if quick else (7, 10)
+    K, exh = (6, 6) if quick else (7, 10)
     with scratch("c06_") as sdir:
+        _decl_histories(res, tier, sdir)
         _family(res, K, exh, sdir)
         _tiny(res, TINY if quick else TINY + TINY_THOROUGH, sdir)
         _traces(res, 240 if quick else 2400, 28 if quick else 40, sdir)
@@ -813,12 +1116,21 @@ def run(res, tier):
                         "random_shapes_max_bits": 1023})
     res.note("rule", "spec->code: every shape of the bounded family (all struct shapes with <= %d shape nodes, "
              "depth <= 3, <= 3 fields, list dims in {1,2}^(1..2), leaf widths 1..3) through both construction "
-             "routes with 5 + #leaves sample values and the 8*#leaves+16 step aliasing script, plus every "
-             "transition of the object machine for tiny shapes; code->spec: one random history per random shape "
-             "(<= 1023 bits, depth <= 4). A case is one distinct shape (family, tiny or random)." % K)
+             "routes with 5 + #leaves sample values and the 9*#leaves+20 step aliasing script, plus every "
+             "transition of the object machine for tiny shapes, plus every history of <= 3 declarations of %d "
+             "mutually permuted / re-typed shapes under one class name through both routes; code->spec: one random "
+             "history per random shape (<= 1023 bits, depth <= 4) and per re-declaration (field order / leaf width / "
+             "list dimension changed, or unchanged) of a random shape under the same class name. A case is one "
+             "distinct shape (family, tiny or random) or one distinct declaration history." % (K, len(_decl_shapes(tier))))
     res.assume("_flip() is only called on objects whose every leaf has a pending value (after <<= and before a "
                "leaf is replaced); pymtl3 raises AttributeError otherwise and the statement leaves it open")
     res.assume("round trips are checked over all bit vectors only up to %d bits; wider shapes use zero, ones, "
                "alternating, leaf-index-coded and one-leaf-set patterns / random values" % exh)
     res.assume("mutation of a field means `obj.path @= v` or `obj.path = BitsW(v)` on a leaf; replacing a whole "
                "list or nested struct object by hand is not exercised")
+    res.assume("constructing T(...) with list / nested-struct ARGUMENTS stores the caller's objects (Python reference "
+               "semantics); the statement speaks of from_bits, clone, deepcopy, @= and <<= only, so two instances "
+               "built from the same argument objects are not required to be independent; default construction T() "
+               "is required to build fresh field objects")
+    res.assume("declaration histories use one process and the cache of bitstruct classes as pymtl3 keeps it; every "
+               "history runs under its own class name so that it starts from 'nothing declared under this name'")
